@@ -27,6 +27,7 @@ type GenCfg struct {
 	RequiredBias int   // percent of fields required (0 => 20)
 	CountChoices []int // when set, container sizes are drawn from this list
 	HolderBytes  bool  // holders may carry retained unknown-field bytes
+	BinaryPtr    bool  // optional binary fields may be held as *[]byte
 	Twins        bool  // add "twin" fields: same Go type, schema differing in one list<->set or enum<->i64 node at any depth
 	NoNil        bool  // never generate nil containers / binaries / struct pointers
 	// Exclusions for open known findings (counted by the caller).
@@ -137,6 +138,10 @@ func genStruct(t *rapid.T, c GenCfg, nest int, label string) *StructSpec {
 		f.Type = genType(t, c, nest, 0, posField)
 		if f.Req == Optional && (f.Type.IsScalar() || f.Type.Kind == KString) {
 			f.GoPtr = rapid.IntRange(0, 3).Draw(t, "goptr") != 0
+		}
+		if f.Req == Optional && f.Type.Kind == KBinary && c.BinaryPtr {
+			// the optional-pointer form of binary (*[]byte): accepted by the tag parser like *string
+			f.GoPtr = rapid.IntRange(0, 3).Draw(t, "binptr") == 0
 		}
 		if c.NoCopy && (f.Type.Kind == KString || f.Type.Kind == KBinary) {
 			f.NoCopy = rapid.IntRange(0, 2).Draw(t, "nocopy") == 0
